@@ -168,3 +168,55 @@ theorem simpLoop_clean (q : UQuirks) (n : Nat) (us : UnitSet) (f : α) (hn : us.
         exact absurd (by simpa using h0) ha
 
 end Units
+
+namespace Units
+open UNum
+variable {α : Type} [UNum α]
+
+theorem scaleTo_none_of_conv (q : UQuirks) (u v : U) (h : conv q u v = false) :
+    scaleTo (α := α) q u v = none := by
+  have := scaleTo_isSome (α := α) q u v
+  rw [h] at this
+  cases hs : scaleTo (α := α) q u v with
+  | none => rfl
+  | some r => rw [hs] at this; cases this
+
+/-- the inner loop changes nothing when no later unit is convertible with `au` -/
+theorem simpInner_id (q : UQuirks) (au : U) (ap : Int) (bs : UnitSet) (f : α)
+    (h : ∀ y ∈ bs, conv q y.1 au = false) : simpInner q au ap bs f = (ap, bs, f) := by
+  induction bs generalizing ap f with
+  | nil => rfl
+  | cons x rest ih =>
+    obtain ⟨bu, bp⟩ := x
+    have hn : (if bp ≠ 0 then scaleTo (α := α) q bu au else none) = none := by
+      split
+      · exact scaleTo_none_of_conv q bu au (h (bu, bp) List.mem_cons_self)
+      · rfl
+    simp only [simpInner, hn]
+    rw [ih ap f (fun y hy => h y (List.mem_cons_of_mem _ hy))]
+
+/-- the outer loop changes nothing on a set without convertible pairs -/
+theorem simpLoop_id (q : UQuirks) (n : Nat) (us : UnitSet) (f : α)
+    (h : us.Pairwise fun a b => conv q b.1 a.1 = false) : simpLoop q n us f = (us, f) := by
+  induction n generalizing us f with
+  | zero => rfl
+  | succ n ih =>
+    cases us with
+    | nil => rfl
+    | cons x rest =>
+      obtain ⟨au, ap⟩ := x
+      have hh := List.pairwise_cons.mp h
+      simp only [simpLoop]
+      have hr : (if ap ≠ 0 then simpInner q au ap rest f else (ap, rest, f)) = (ap, rest, f) := by
+        split
+        · exact simpInner_id q au ap rest f (fun y hy => hh.1 y hy)
+        · rfl
+      rw [hr]
+      simp only []
+      rw [ih rest f hh.2]
+
+theorem dropZero_id (s : UnitSet) (h : ∀ x ∈ s, x.2 ≠ 0) : dropZero s = s := by
+  unfold dropZero
+  exact List.filter_eq_self.mpr (fun x hx => by simpa using h x hx)
+
+end Units
